@@ -151,11 +151,6 @@ impl ReadHandle {
 }
 pub assume_specification [String::with_capacity] (n: usize) -> (r: String)
     ensures r@.len() == 0;
-/// all entries except d are the same up to access times; d may differ arbitrarily
-pub open spec fn changed_only_at(t1: Tree, t2: Tree, d: Seq<char>) -> bool {
-    forall|q: Seq<char>| q != d ==> (#[trigger] t2.contains_key(q) == t1.contains_key(q))
-        && (t1.contains_key(q) ==> t2[q].is_dir == t1[q].is_dir && t2[q].bytes == t1[q].bytes && t2[q].created == t1[q].created && t2[q].modified == t1[q].modified)
-}
 impl World {
     /// std::io::copy(&mut src, &mut dest): appends everything the reader still yields at the writer's position.
     /// Write-through model: the destination entry holds the written bytes when the call returns (for MemoryFS this is
@@ -169,5 +164,25 @@ impl World {
                 r is Ok && is_file_at(old(self).tree(wh_fs(**old(dest))), wh_dest(**old(dest))) ==> is_file_at(final(self).tree(wh_fs(**old(dest))), wh_dest(**old(dest)))
                     && final(self).tree(wh_fs(**old(dest)))[wh_dest(**old(dest))].bytes
                         == cur_write_spec(wh_buf(**old(dest)), wh_pos(**old(dest)), rh_bytes(**old(src)).skip(rh_pos(**old(src)))),
+    { unimplemented!() }
+}
+impl World {
+    /// optional fast path FileSystem::copy_file(src, dest) within one filesystem
+    #[verifier::external_body]
+    pub fn copy_file(&mut self, fs: &Arc<VFS>, src: &str, dest: &str) -> (r: VfsResult<()>)
+        requires canonical(src@), canonical(dest@)
+        ensures forall|g: Arc<VFS>| g != *fs && World::indep(*fs, g) ==> #[trigger] final(self).tree(g) == old(self).tree(g),
+                final(self).mutlog() == old(self).mutlog().insert((*fs, dest@)) || final(self).mutlog() == old(self).mutlog(),
+                tc_copy_file(old(self).tree(*fs), src@, dest@, r, final(self).tree(*fs)),
+    { unimplemented!() }
+}
+impl World {
+    /// optional fast path FileSystem::move_file(src, dest) within one filesystem
+    #[verifier::external_body]
+    pub fn move_file(&mut self, fs: &Arc<VFS>, src: &str, dest: &str) -> (r: VfsResult<()>)
+        requires canonical(src@), canonical(dest@)
+        ensures forall|g: Arc<VFS>| g != *fs && World::indep(*fs, g) ==> #[trigger] final(self).tree(g) == old(self).tree(g),
+                forall|f: Arc<VFS>, q: Seq<char>| #[trigger] final(self).mutlog().contains((f, q)) && !old(self).mutlog().contains((f, q)) ==> f == *fs && (q == src@ || q == dest@),
+                tc_move_file(old(self).tree(*fs), src@, dest@, r, final(self).tree(*fs)),
     { unimplemented!() }
 }
